@@ -4,8 +4,10 @@ import QipVerif.Model.SimKet
 
 scalar  = `e:c0_c1_.._c7`          value (Σ c_j ζ^j)/2^e, ζ = e^{iπ/8}
 vector  = scalar,scalar,…          matrix = row;row;…
-op      = `NAME/targets/controls/angle/cn/arg`   (GateIO gate encoding + `cn` = 1 iff `gate.controls is None`
-                                                  + integer `arg` = `arg_value` handed to a 1-argument user function, `-` if none)
+op      = `NAME/targets/controls/angle/cn/arg[/objname]`  (GateIO gate encoding + `cn` = 1 iff `gate.controls is None`
+                                                  + integer `arg` = `arg_value` handed to a 1-argument user function, `-` if none
+                                                  + optionally the object's `.name` attribute — the key of the user-table
+                                                  lookup — when the gate object was built through a gate class)
 ops     = op@op@…  (`-` for none)
 ug      = name~kind~m~matrix^…     kind ∈ oper fn0 fn1 fn2 other; `fn1` denotes `lambda a: a * matrix`
 
@@ -79,17 +81,23 @@ structure OpReq where
   g : Gate
   cn : Bool
   arg : Option Int
+  /-- the `.name` attribute of the gate object when it differs from the library name of its matrix
+  (objects built through the gate classes: `H(0).name = "H"`, `CY(0, 1).name = "_OneControlledGate"` …) -/
+  objname : Option String := none
+
+def opReq6? (n t c a cn arg : String) (objname : Option String) : Option OpReq :=
+  match gate? ("/".intercalate [n, t, c, a]), cn.toNat? with
+  | some g, some cnv =>
+    if arg == "-" then some ⟨g, cnv == 1, none, objname⟩ else
+      match arg.toInt? with
+      | some v => some ⟨g, cnv == 1, some v, objname⟩
+      | none => none
+  | _, _ => none
 
 def opReq? (s : String) : Option OpReq :=
   match s.splitOn "/" with
-  | [n, t, c, a, cn, arg] =>
-    match gate? ("/".intercalate [n, t, c, a]), cn.toNat? with
-    | some g, some cnv =>
-      if arg == "-" then some ⟨g, cnv == 1, none⟩ else
-        match arg.toInt? with
-        | some v => some ⟨g, cnv == 1, some v⟩
-        | none => none
-    | _, _ => none
+  | [n, t, c, a, cn, arg] => opReq6? n t c a cn arg none
+  | [n, t, c, a, cn, arg, on] => opReq6? n t c a cn arg (some on)
   | _ => none
 
 def opReqs? (s : String) : Option (List OpReq) :=
@@ -116,7 +124,7 @@ def userGateOf (u : UDef) : UserGate OpReq S where
     | some q => u.mat.map (·.map (CycD.mul ⟨0, Cyc.ofInt (q.arg.getD 0)⟩))
 
 def reqOf (r : OpReq) : GateReq OpReq :=
-  ⟨r.g.name.toString, r.g.targets, r.g.controls, r.cn, r⟩
+  ⟨r.objname.getD r.g.name.toString, r.g.targets, r.g.controls, r.cn, r⟩
 
 /-- resolution of the gate objects to matrix steps: the model's `resolveAll` (Model/SimKet.lean (f));
 a GLOBALPHASE with a symbolic angle cannot be represented exactly and is refused here -/
